@@ -216,3 +216,101 @@ def rule_operator_used(ctx, rep, rid: str) -> None:
                         else:
                             rep.ok(rid, key)
                     node = node.orelse[0] if len(node.orelse) == 1 and isinstance(node.orelse[0], ast.If) else None
+
+
+# ---- memo tables are keyed by everything the cached value depends on --------------------------------------
+def _memo_sites(f):
+    """(cache expr, key expr, compute call) for `v = C.get(K) ; if v is None: v = g(..); C[K] = v` and
+    `if K not in C: C[K] = g(..)`."""
+    out = []
+    for n in f.own_nodes():
+        if isinstance(n, ast.If):
+            # if v is None: v = g(...); C[K] = v
+            t = n.test
+            if isinstance(t, ast.Compare) and isinstance(t.ops[0], ast.Is) and isinstance(t.left, ast.Name) and isinstance(t.comparators[0], ast.Constant) and t.comparators[0].value is None:
+                v = t.left.id
+                gets = [a for a in f.own_nodes() if isinstance(a, ast.Assign) and any(isinstance(x, ast.Name) and x.id == v for x in a.targets) and isinstance(a.value, ast.Call) and isinstance(a.value.func, ast.Attribute) and a.value.func.attr == "get" and a.lineno < n.lineno]
+                comp = [a for a in n.body if isinstance(a, ast.Assign) and any(isinstance(x, ast.Name) and x.id == v for x in a.targets) and isinstance(a.value, ast.Call)]
+                store = [a for a in n.body if isinstance(a, ast.Assign) and any(isinstance(x, ast.Subscript) for x in a.targets) and isinstance(a.value, ast.Name) and a.value.id == v]
+                if gets and comp and store:
+                    g = gets[-1].value
+                    out.append((g.func.value, g.args[0] if g.args else None, comp[0].value, n))
+            # if K not in C: C[K] = g(...)
+            if isinstance(t, ast.Compare) and isinstance(t.ops[0], ast.NotIn):
+                for a in n.body:
+                    if isinstance(a, ast.Assign) and isinstance(a.targets[0], ast.Subscript) and isinstance(a.value, ast.Call) and norm(a.targets[0].value) == norm(t.comparators[0]) and norm(a.targets[0].slice) == norm(t.left):
+                        out.append((t.comparators[0], t.left, a.value, n))
+    return out
+
+
+def _param_matters(ctx, g, pname: str) -> bool:
+    """Does parameter pname of g influence g's result?  Uses that merely hand it on to g itself (directly or from a
+    closure of g) in the same position do not count: a parameter that is only passed along the recursion is unused."""
+    from ..util import bind_args
+
+    scopes = [g] + list(g.children.values())
+    for h in scopes:
+        if isinstance(h.node, ast.Lambda):
+            continue
+        if h is not g and pname in h.params():
+            continue  # shadowed
+        for u in h.own_nodes():
+            if not (isinstance(u, ast.Name) and u.id == pname and isinstance(u.ctx, ast.Load)):
+                continue
+            par = getattr(u, "_parent", None)
+            if isinstance(par, ast.Call) and u in par.args:
+                cs = ctx.cg.site_of_call.get(id(par))
+                if cs is not None and cs.kind == "resolved" and cs.targets and all(t is g for t in cs.targets):
+                    if bind_args(par, g).get(pname) is u:
+                        continue
+            return True
+    return False
+
+
+def rule_memo_keys(ctx, rep, rid: str, modules=("compiler", "parser", "vm", "context", "values", "regex.compiler", "regex.parser")) -> None:
+    """A cached result may be reused only for the arguments it was computed from: every argument of the computation
+    that its result depends on has to be part of the cache key."""
+    rep.rule(rid, "every memo table is keyed by all arguments the cached computation depends on: an argument that the computing function reads but the key leaves out makes the first caller's answer the answer for everyone", floor=1)
+    ctl = ast.parse("def f(self, node, scope):\n    used = self._memo.get(id(node))\n    if used is None:\n        used = self._collect(node, scope)\n        self._memo[id(node)] = used\n    return used\n")
+
+    class _F:
+        def __init__(self, n):
+            self.node = n
+
+        def own_nodes(self):
+            return list(ast.walk(self.node))
+
+    if len(_memo_sites(_F(ctl.body[0]))) != 1:
+        raise AnalysisError("positive control failed: memo pattern detector")
+    n = 0
+    for f in ctx.tree.funcs:
+        if isinstance(f.node, ast.Lambda) or not f.module.name.startswith(tuple(modules)):
+            continue
+        for cache, keyexpr, call, at in _memo_sites(f):
+            n += 1
+            key = f"{f.qual}:memo:{short(cache, 30)}"
+            key_names = {x.id for x in ast.walk(keyexpr) if isinstance(x, ast.Name)} if keyexpr is not None else set()
+            cs = ctx.cg.site_of_call.get(id(call))
+            tgt = cs.targets[0] if cs is not None and cs.kind == "resolved" and cs.targets else None
+            missing = []
+            from ..util import bind_args
+
+            if tgt is not None and not isinstance(tgt.node, ast.Lambda):
+                for pname, a in bind_args(call, tgt).items():
+                    if a is None or pname == "self":
+                        continue
+                    names = {x.id for x in ast.walk(a) if isinstance(x, ast.Name)} - {"self"}
+                    if names and not (names <= key_names):
+                        # does the computation read this parameter at all?
+                        if _param_matters(ctx, tgt, pname):
+                            missing.append((pname, norm(a)))
+            else:
+                for a in call.args:
+                    names = {x.id for x in ast.walk(a) if isinstance(x, ast.Name)} - {"self"}
+                    if names and not (names <= key_names):
+                        missing.append(("?", norm(a)))
+            if missing:
+                rep.bad(rid, key, f"{f.qual} caches {short(call, 40)} under the key {short(keyexpr, 30) if keyexpr is not None else '?'}, but the computation also depends on {', '.join(m[1] for m in missing)}: the value computed for the first caller is handed to callers with a different {missing[0][1]}", f"{f.module.rel}:{at.lineno}")
+            else:
+                rep.ok(rid, key)
+    rep.ok(rid, "memo-tables", {"examined": n})
